@@ -15,7 +15,8 @@ TAILS = {"", "77", "90", "95", "03", "05", "08", "18", "or", "pp"}
 
 def _suffix_builder(ctx):
     """The function folding the default suffix pattern + user suffixes."""
-    hits = [rx for rx in ctx.p.inline if rx.func is not None and any(isinstance(p, rex.Hole) for p in rx.template) and "[fF]" in rx.text]
+    # the template with a hole for the user's suffixes whose constant part spells the `.f..` suffix family
+    hits = [rx for rx in ctx.p.inline if rx.func is not None and any(isinstance(p, rex.Hole) for p in rx.template) and re.search(r"\\\.(\[fF\]|f|F)[(\[]", rx.text)]
     if not hits:
         raise AnalysisError("suffix pattern builder not found")
     return hits[0]
@@ -34,6 +35,11 @@ def r1(ctx, R):
         R.violation("C18.R1", f.short, "suffix template anchoring", loc(f, rx.node), f"alternative(s) {bad} of {rx.text.replace(rex.HOLE, '{user}')!r} are not end-anchored: look-alike names such as x.f90.bak are indexed")
     else:
         R.ok("C18.R1", f.short, "suffix template anchoring", loc(f, rx.node), f"{len(alts)} alternatives, all end in $")
+    # configured suffixes are matched as configured (documented: `.FYP` matches file.FYP, not file.fyp)
+    if rx.ignorecase:
+        R.violation("C18.R1", f.short, "configured suffixes are case-sensitive", loc(f, rx.node), "the template with the user's suffixes is compiled with IGNORECASE: a configured `.inc` also indexes X.INC and x.Inc - files outside the configured set contribute symbols")
+    else:
+        R.ok("C18.R1", f.short, "configured suffixes are case-sensitive", loc(f, rx.node))
     # default alternative language
     default_alt = None
     for a in alts:
